@@ -56,6 +56,7 @@ PredicateLaws == (kind = "bytes") =>
   /\ (HasCanonicalPushes(inp) => IsValidScript(inp))
   /\ (IsV0KeyHash(inp) \/ IsV0ScriptHash(inp) => IsWitnessProgram(inp))
   /\ SigOps(inp, TRUE) <= SigOps(inp, FALSE)
+  /\ SigOpsAuto(inp, TRUE) = SigOps(inp, TRUE) /\ SigOpsAuto(inp, FALSE) = SigOps(inp, FALSE)
   /\ (IsValidScript(inp) /\ HasCanonicalPushes(inp) /\ ~(\E i \in 1..Len(RawOps(inp).ops) : RawOps(inp).ops[i].op = 79)
         => Build(Cooked(inp).toks) = inp)
 
